@@ -116,3 +116,27 @@ class Acc(object):
         for r in d['inconclusive']:
             if len(self.inconclusive) < 50:
                 self.inconclusive.append(r)
+
+
+def confirmed(case, fn, acc, retries=2):
+    """Flake discipline for checks whose subject contains real wall-clock
+    limits: run fn(case, scratch_acc); a violation is reported only if it
+    reproduces (same mechanism) in `retries` further serial runs, otherwise it
+    is counted as flaky_unconfirmed."""
+    first = Acc()
+    fn(case, first)
+    if first.violations:
+        mech = first.violations[0]['mechanism']
+        ok = True
+        for _ in range(retries):
+            again = Acc()
+            fn(case, again)
+            if not any(v['mechanism'] == mech for v in again.violations):
+                ok = False
+                break
+        if not ok:
+            first.violations = []
+            first.viol_counts = {}
+            first.count('flaky_unconfirmed')
+            first.seen('list:flaky_unconfirmed_mechanisms', mech)
+    acc.merge(first.dump())
